@@ -6,12 +6,15 @@ import (
 	"fmt"
 	"net"
 	"sort"
+	"testing/synctest"
 
 	"github.com/netflix/rend/handlers/memcached/cluster"
 	"github.com/netflix/rend/verifshim/vnet"
+	"github.com/netflix/rend/verifshim/vsync"
 
 	"verif/fakemc"
 	"verif/rt"
+	"verif/sched"
 	"verif/wire"
 )
 
@@ -234,6 +237,9 @@ func runC19(c *rt.Ctx) {
 	if c.Mine(0) {
 		clusterHandlerRouting(c, nkeys/10)
 	}
+	if c.Mine(1) {
+		clusterProxyRouting(c, nkeys/20)
+	}
 	c.Set("max_nodes", maxN)
 	c.Set("all_permutations_up_to", maxPerm)
 	c.Set("key_sample", nkeys)
@@ -345,5 +351,106 @@ func clusterHandlerRouting(c *rt.Ctx, nkeys int) {
 		}
 		c.Distinct(fmt.Sprintf("cluster-handler|%d", n))
 		c.Nontrivial(fmt.Sprintf("cluster-handler|%d", n))
+	}
+}
+
+// clusterProxyRouting runs rend's cluster-proxy main program itself (app/memcached_cluster_proxy.go,
+// copied unedited into an importable package by the overlay) twice, with the node list in two
+// different orders, and talks to both through their real accept loops: a set through one client
+// connection must be found by a get through another connection of the same proxy and through a
+// connection of the other proxy, and must live on exactly the node the ring names.
+func clusterProxyRouting(c *rt.Ctx, nkeys int) {
+	leaked, other := sched.Bubble(c.T, func() {
+		port := 50000
+		for _, n := range []int{1, 2, 3, 5, 8} {
+			stores := map[string]*fakemc.Store{}
+			var addrs []string
+			for i := 0; i < n; i++ {
+				a := fmt.Sprintf("10.2.%d.%d:11211", n, i+1)
+				addrs = append(addrs, a)
+				stores[a] = fakemc.NewStore(a)
+			}
+			dial := func(network, address string) (net.Conn, error) {
+				st, ok := stores[address]
+				if !ok || network != "tcp" {
+					return nil, fmt.Errorf("no such node %s %s", network, address)
+				}
+				port++
+				conn := fakemc.NewConn(st, address)
+				conn.Async = true
+				conn.Local = fmt.Sprintf("10.0.0.9:%d", port)
+				return conn, nil
+			}
+			perm := append(append([]string{}, addrs[n/2:]...), addrs[:n/2]...)
+			stop := make(chan struct{})
+			p1, prob1 := startClusterProxy(stop, addrs, dial)
+			p2, prob2 := startClusterProxy(stop, perm, dial)
+			if prob1+prob2 != "" {
+				c.Violation("C19 cluster-proxy-start", prob1+" "+prob2, map[string]interface{}{"labels": addrs})
+				close(stop)
+				continue
+			}
+			connect := func(l *appListener) *Client {
+				cli := NewClient()
+				l.ch <- cli
+				synctest.Wait()
+				return cli
+			}
+			a, b, x := connect(p1), connect(p1), connect(p2)
+			vnet.DialHook = dial
+			ref, err := cluster.NewHandler(addrs, "ref")
+			if err != nil {
+				panic(err)
+			}
+			do := func(cli *Client, op wire.Op) wire.Reply {
+				from := len(cli.Out)
+				cli.Feed(wire.Encode("binary", op))
+				synctest.Wait()
+				reps, _, _ := wire.DecodeBinary(cli.Out[from:], []wire.Op{op})
+				return reps[0]
+			}
+			bad := false
+			for i := 0; i < nkeys && !bad; i++ {
+				k := fmt.Sprintf("pk:%d:%x", i, i*40503)
+				v := fmt.Sprintf("v%d", i)
+				if r := do(a, wire.Op{Kind: "set", Key: k, Val: v, Flags: uint32(i), Opaque: uint32(16 * i)}); r.Class != "ok" {
+					c.Violation("C19 cluster-proxy-set", fmt.Sprintf("%d nodes: set %q through the proxy: %s", n, k, r.Canon()), map[string]interface{}{"labels": addrs, "key": k})
+					break
+				}
+				for ci, cli := range []*Client{a, b, x} {
+					r := do(cli, wire.Op{Kind: "get", Key: k, Opaque: uint32(16*i + 1 + ci)})
+					c.Eval(1)
+					if len(r.Hits) != 1 || r.Hits[0].Val != v || r.Hits[0].Flags != uint32(i) {
+						which := []string{"the connection that set it", "another connection of the same proxy", "a proxy started with the nodes listed in another order"}[ci]
+						c.Violation("C19 proxy-connection-dependent-routing", fmt.Sprintf("%d nodes: key %q set through the cluster proxy is not found through %s: %s", n, k, which, r.Canon()),
+							map[string]interface{}{"labels": addrs, "other_order": perm, "key": k})
+						bad = true
+						break
+					}
+				}
+				var on []string
+				for ad, st := range stores {
+					if st.Lookup(k) != nil {
+						on = append(on, ad)
+					}
+				}
+				if want := ref.Continuum.Hash([]byte(k)).Label(); !bad && (len(on) != 1 || on[0] != want) {
+					c.Violation("C19 cluster-proxy-placement", fmt.Sprintf("%d nodes: key %q set through the cluster proxy is stored on %v, the ring names %s", n, k, on, want), map[string]interface{}{"labels": addrs, "key": k})
+					bad = true
+				}
+			}
+			for _, cli := range []*Client{a, b, x} {
+				cli.End()
+			}
+			synctest.Wait()
+			close(stop)
+			vnet.ListenHook, vnet.DialHook, vsync.WaitHook = nil, nil, nil
+			c.Distinct(fmt.Sprintf("cluster-proxy|%d", n))
+			c.Nontrivial(fmt.Sprintf("cluster-proxy|%d", n))
+		}
+	})
+	_ = leaked
+	if other != nil {
+		panic(other)
 	}
 }
